@@ -140,6 +140,11 @@ pub enum COp {
     Av100k,
     AsSmall,
     As50k,
+    /// a snapshot above 1 MiB (several hundred pages; size-gated code paths)
+    As2m,
+    /// a version / a snapshot of exactly the 100 MiB limit (corpus only)
+    AvMax,
+    AsMax,
     AsDeclined,
     /// not a request: from here on another connection to the database stays open (an overlapping
     /// request that has opened its connection, another worker, another instance), so that closing
@@ -157,12 +162,15 @@ impl COp {
             COp::Av100k => "AddVersion(A, 100KB)",
             COp::AsSmall => "AddSnapshot(A, latest, 20B)",
             COp::As50k => "AddSnapshot(A, latest, 50KB)",
+            COp::As2m => "AddSnapshot(A, latest, 1.2MB)",
+            COp::AvMax => "AddVersion(A, 100MiB)",
+            COp::AsMax => "AddSnapshot(A, latest, 100MiB)",
             COp::AsDeclined => "AddSnapshot(A, unknown id) [declined]",
             COp::HoldConnection => "<another connection stays open>",
         }
     }
     pub fn parse(s: &str) -> Option<COp> {
-        [COp::AvNewClient, COp::AvSmall, COp::Av10k, COp::Av1m, COp::Av100k, COp::AsSmall, COp::As50k, COp::AsDeclined, COp::HoldConnection].into_iter().find(|c| c.name() == s)
+        [COp::AvNewClient, COp::AvSmall, COp::Av10k, COp::Av1m, COp::Av100k, COp::AsSmall, COp::As50k, COp::As2m, COp::AvMax, COp::AsMax, COp::AsDeclined, COp::HoldConnection].into_iter().find(|c| c.name() == s)
     }
     pub fn all() -> Vec<COp> {
         // (HoldConnection is added by `histories`, it is not a request)
@@ -221,6 +229,9 @@ pub fn record(hist: &[COp], seed: u64) -> Result<Recorded, String> {
             COp::Av100k => SymOp::AddVersion { c: 0, parent: latest_a, data: body(100_000, k as u8) },
             COp::AsSmall => SymOp::AddSnapshot { c: 0, v: latest_a, data: body(20, 100 + k as u8) },
             COp::As50k => SymOp::AddSnapshot { c: 0, v: latest_a, data: body(50_000, 100 + k as u8) },
+            COp::As2m => SymOp::AddSnapshot { c: 0, v: latest_a, data: body(1_200_000, 100 + k as u8) },
+            COp::AvMax => SymOp::AddVersion { c: 0, parent: latest_a, data: body(100 * 1024 * 1024, k as u8) },
+            COp::AsMax => SymOp::AddSnapshot { c: 0, v: latest_a, data: body(100 * 1024 * 1024, 100 + k as u8) },
             COp::AsDeclined => SymOp::AddSnapshot { c: 0, v: 7000 + k as Sid, data: body(20, 200 + k as u8) },
             COp::HoldConnection => unreachable!(),
         };
@@ -407,6 +418,10 @@ pub fn recover(img: &DirImage, seed: u64, known_ids: &[Uuid], epilogue: bool) ->
     Ok(out)
 }
 
+/// Above this many unsynced writes at a crash point the adversary is reduced to single
+/// deviations (see `explore`).
+pub const LONG_EPOCH: usize = 64;
+
 pub struct CrashParams {
     /// above the subset cap, pairs of dropped / surviving writes are enumerated up to this many
     /// pending writes (single deviations and all prefixes always are)
@@ -428,6 +443,7 @@ pub struct CrashStats {
     pub recovered_before: u64,
     pub recovered_after: u64,
     pub bounded_points: u64,
+    pub long_epoch_points: u64,
     pub max_pending: usize,
 }
 
@@ -508,6 +524,21 @@ pub fn explore(rec: &Recorded, p: &CrashParams, part: usize, parts: usize) -> (C
             for m in 0..(1u64 << n) {
                 masks.push((0..n).map(|i| m & (1 << i) != 0).collect());
             }
+        } else if n > LONG_EPOCH {
+            // a long run of unsynced writes (a multi-megabyte commit or checkpoint): every prefix
+            // of it is the process-crash image of an earlier crash point, so only the deviations
+            // are new here: nothing survives, everything survives, one write missing at the
+            // start / middle / end, the last two missing, only the first or only the last survives
+            st.bounded_points += 1;
+            st.long_epoch_points += 1;
+            masks.push(vec![false; n]);
+            masks.push(vec![true; n]);
+            for a in [0, n / 2, n - 1] {
+                masks.push((0..n).map(|i| i != a).collect());
+            }
+            masks.push((0..n).map(|i| i + 2 < n).collect());
+            masks.push((0..n).map(|i| i == 0).collect());
+            masks.push((0..n).map(|i| i == n - 1).collect());
         } else {
             st.bounded_points += 1;
             // every prefix, every all-but-one/two, every only-one/two
@@ -639,6 +670,8 @@ pub fn histories(quick: bool) -> Vec<Vec<COp>> {
             vec![COp::Av100k],
             vec![COp::HoldConnection, COp::AvSmall, COp::AsSmall, COp::AvNewClient],
             vec![COp::AvSmall, COp::HoldConnection, COp::Av10k, COp::AvSmall],
+            // a large snapshot replacing an existing one
+            vec![COp::AvSmall, COp::AsSmall, COp::AvSmall, COp::As2m],
         ];
     }
     let all = COp::all();
@@ -668,6 +701,11 @@ pub fn histories(quick: bool) -> Vec<Vec<COp>> {
         held.push(h2);
     }
     out.extend(held);
+    // large snapshots: first one, and replacing an existing one
+    out.push(vec![COp::AvSmall, COp::As2m]);
+    out.push(vec![COp::AvSmall, COp::AsSmall, COp::AvSmall, COp::As2m]);
+    out.push(vec![COp::AvSmall, COp::As2m, COp::AvSmall, COp::As2m]);
+    out.push(vec![COp::HoldConnection, COp::AvSmall, COp::AsSmall, COp::AvSmall, COp::As2m]);
     // a few length-4 histories mixing everything
     out.push(vec![COp::AvNewClient, COp::Av10k, COp::As50k, COp::AvNewClient]);
     out.push(vec![COp::AvSmall, COp::AsSmall, COp::Av1m, COp::AsSmall]);
@@ -692,7 +730,7 @@ pub fn worker_main() {
                 Ok(Ok((st, f, conf))) => json!({
                     "log_len": st.log_len, "crash_points": st.crash_points, "images": st.images, "distinct_images": st.distinct_images,
                     "process_images": st.process_images, "power_images": st.power_images, "torn_images": st.torn_images,
-                    "recovered_before": st.recovered_before, "recovered_after": st.recovered_after, "bounded_points": st.bounded_points, "max_pending": st.max_pending,
+                    "recovered_before": st.recovered_before, "recovered_after": st.recovered_after, "bounded_points": st.bounded_points, "long_epoch_points": st.long_epoch_points, "max_pending": st.max_pending,
                     "conformance_error": conf,
                     "findings": f.iter().map(|x| json!({"class": x.class, "msg": x.msg, "point": x.point, "image": x.image})).collect::<Vec<_>>(),
                 }),
